@@ -8,6 +8,11 @@ mod crc;
 pub use build::DataFrameBuilder;
 pub use build::AckFrameBuilder;
 
+#[cfg(uflow_verif)]
+pub use crc::compute as verif_crc_compute;
+#[cfg(uflow_verif)]
+pub use crc::extend as verif_crc_extend;
+
 const FRAME_HEADER_SIZE: usize = 1;
 const FRAME_CRC_SIZE: usize = 4;
 const FRAME_OVERHEAD: usize = FRAME_HEADER_SIZE + FRAME_CRC_SIZE;
